@@ -1826,7 +1826,7 @@ where
     /// ```
     pub fn truncate(&self, k: usize) -> Self {
         let coefficients = self.coefficients().iter().copied();
-        let coefficients = coefficients.rev().take(k + 1).rev().collect();
+        let coefficients = coefficients.rev().take(k.saturating_add(1)).rev().collect();
         Self::new(coefficients)
     }
 
